@@ -228,7 +228,11 @@ package table
 //@ props C03
 //@ func (*Path).Compare
 //@   pure
-//@   spec-only
+// (vocabulary of the multipath clauses; pinned here to "the equal-cost multipath set": two routes are of equal cost
+// only if they agree in LOCAL_PREF, AS_PATH length, ORIGIN and MED - a missing MED counting as 0, as in the
+// decision process)
+//@   claims at-return
+//@   at-return requires ret0 == 0 ==> m1 == m2 && o1 == o2 && l1 == l2 && lp1 == lp2
 
 // pairwise sortedness by the statement's order
 //@ spec sortedList(l []*Path) bool = forall i int, j int :: 0 <= i && i < j && j < len(l) ==> specPref(l[i], l[j])
@@ -759,6 +763,10 @@ package table
 //@   pure
 //@   claims at-return at-call
 //@   at-return requires ret0 == path.OriginInfo().stale
+//@ func (*Path).SetRejected
+//@   requires path != nil
+//@   modifies path.rejected
+//@   ensures path.rejected == y
 //@ func (*Path).SetDropped
 //@   requires path != nil
 //@   modifies path.dropped
@@ -789,3 +797,18 @@ package table
 //@ func (*Path).ReplaceAS
 //@   pure
 //@   spec-only
+
+// from C11 "a route shares a message only with routes whose attributes are identical": the bytes routes are grouped by
+// are made of every attribute of the route - none is left out of the comparison (for an IPv4 route learned over
+// MP_REACH the next hop is in that attribute only)
+//@ props C11
+//@ func (*packerV4).add
+//@   claims step
+//@   loop 0 step called(Write)
+
+// from C09 "next hop ... rewritten ... as the peer type requires": a rewritten next hop is the one address given -
+// nothing of the next hop it replaces (a link-local address of the router the route came from) goes with it
+//@ props C09
+//@ func (*Path).SetNexthop
+//@   claims at-call
+//@   at-call bgp.NewPathAttributeMpReachNLRI( requires len(arg2) == 1 && arg2[0] == nexthop
